@@ -185,6 +185,23 @@ def err_tags(r):
     return sorted(out)
 
 
+def copy_tags(r):
+    """(source disk, source name, destination disk, destination name) of every scan:copy tag"""
+    return sorted((t[2], t[3], t[4], t[5]) for t in r.tags if t[0] == b"scan" and len(t) >= 6 and t[1] == b"copy")
+
+
+def scan_diff_key(ref, r):
+    """The scanner's classification differs between two runs over the same tree. One mechanism is a recorded finding: a new
+    file is taken for a copy of a recorded file of another disk only if that disk's scan thread has not yet replaced the
+    record because the source itself was updated - diagnosed as: every differing copy tag names a source that the same scan
+    reports as updated."""
+    a, b = set(copy_tags(ref)), set(copy_tags(r))
+    upd = {(t[2], t[3]) for x in (ref, r) for t in x.tags if t[0] == b"scan" and len(t) >= 4 and t[1] == b"update"}
+    if all((c[0], c[1]) in upd for c in a ^ b):
+        return "scan-classification-depends-on-schedule:copy/source-updated-in-the-same-scan"
+    return "scan-classification-depends-on-schedule:copy/unexplained"
+
+
 def build_scenario(rng, kind, variant):
     nlev = rng.choice([1, 2, 3, 6])
     cfg = scen.gen_config(rng, force=dict(nlev=nlev, nd=rng.randint(2, 5), ncontent=2, content_on_data=False), allow_splits=rng.random() < 0.3)
@@ -204,7 +221,7 @@ def build_scenario(rng, kind, variant):
         sm = sorted(c.stripe_map())
         for pos in rng.sample(sm, min(len(sm), rng.randint(1, 4))):
             dmg.damage_parity_block(a, c, rng.randrange(a.nlev), pos, rng, "byte")
-    if kind in ("pending", "mixed"):
+    if kind in ("pending", "mixed", "skip"):
         scen.mutate(fs, rng, rng.randint(5, 12), hostile=0.05, maxblocks=6,
                     ops=["create", "create", "overwrite", "append", "truncate", "delete", "rename", "move_disk", "copy"])
     return a, fs, cfg
@@ -213,14 +230,47 @@ def build_scenario(rng, kind, variant):
 def run_diff_case(case):
     _k, seed, idx, tier = case
     rng = random.Random("c13-%d-%d" % (seed, idx))
-    kind = ["pending", "errors", "mixed"][idx % 3]
+    kind = ["pending", "errors", "mixed", "skip"][idx % 4]
     res = dict(key="diff-%d" % idx, violations=[], counters={}, nontrivial=False, sigs=[])
     a, fs, cfg = build_scenario(rng, kind, "plain")
     tpl = None
     T = 1_650_000_000
     try:
         tpl = Template(a)
-        cmds = [("sync", ["-E", "-Z"]), ("scrub", ["-p", "full"])] if kind != "pending" else [("sync", ["-E", "-Z"])]
+        cmds = [("sync", ["-E", "-Z"]), ("scrub", ["-p", "full"])] if kind in ("errors", "mixed") else [("sync", ["-E", "-Z"])]
+        if kind == "skip":
+            # files vanish / change between scan and sync (--test-run): their stripes are skipped with an error while other
+            # blocks of the same stripes wait for a parity update
+            import shlex
+            fl = [x for x in fs.files() if len(fs.entries[x[0]][x[1]][1]) > 0]
+            acts = []
+            for (d, s_) in rng.sample(fl, min(len(fl), rng.randint(1, 3))):
+                pth = shlex.quote(os.fsdecode(fs.path(d, s_)))
+                acts.append(("rm -f %s" % pth) if rng.random() < 0.6 else ("printf changed-during-sync >> %s" % pth))
+            cmds = [("sync", ["-E", "-Z", "--test-run", " ; ".join(acts)])]
+            res["counters"]["skip_scenarios"] = 1
+        if kind != "errors":
+            # scan differential: the classification printed by diff (scan: tags) with the sequential scanner versus the
+            # per-disk scan threads under perturbation
+            tpl.restore()
+            sref = a.cmd("diff", "--test-skip-multi-scan", shim={"time": T, "log": False})
+            stags = sorted(tuple(t) for t in sref.tags if t[0] == b"scan")
+            for ps in ([None, 1, 2, 3, 4, 5] if tier == "quick" else [None] + list(range(1, 16))):
+                env = {"SNAPRAID_VERIF_SCHED": str(ps * 104729 + idx)} if ps is not None else {}
+                r = a.cmd("diff", shim={"time": T, "log": False}, env=env, timeout=25)
+                res["counters"]["scan_runs"] = res["counters"].get("scan_runs", 0) + 1
+                rep = {"case": list(case), "cfg": cfg, "cmd": ["diff"], "sched_seed": ps, "scenario": kind}
+                if r.timeout:
+                    res["violations"].append(("hang:diff", "diff sched %s did not end within 25 s" % ps, rep))
+                    break
+                now_t = sorted(tuple(t) for t in r.tags if t[0] == b"scan")
+                if r.rc != sref.rc:
+                    res["violations"].append(("exit-status-depends-on-schedule:diff", "diff sched %s rc=%s, sequential scan rc=%s" % (ps, r.rc, sref.rc), rep))
+                if now_t != stags:
+                    key = scan_diff_key(sref, r) if copy_tags(r) != copy_tags(sref) else "scan-classification-depends-on-schedule:other"
+                    res["violations"].append((key, "diff sched %s: scan tags differ from the sequential scan: only-parallel %s only-sequential %s" %
+                                              (ps, evidence.jsonable([x for x in now_t if x not in stags][:3]), evidence.jsonable([x for x in stags if x not in now_t][:3])), rep))
+                    break
         for cmd, base in cmds:
             tpl.restore()
             tr = os.path.join(a.root, "trace-ref")
@@ -235,6 +285,7 @@ def run_diff_case(case):
                 raise scen.CaseError("reference content: %s" % ex)
             ref_err = err_tags(ref)
             ref_rc = ref.rc
+            ref_copies = copy_tags(ref)
             pr, st = check_trace(parse_trace(tr))
             ref_takes = st["takes"]
             for p_ in pr[:2]:
@@ -265,6 +316,13 @@ def run_diff_case(case):
                             if hung >= 2:
                                 break
                             continue
+                    if cmd == "sync" and copy_tags(r) != ref_copies:
+                        # the two syncs did not start from the same scan result: report that, and do not attribute the
+                        # downstream differences (block states, errors) to the I/O ring
+                        res["violations"].append((scan_diff_key(ref, r), "%s: scan:copy tags differ from the reference run: %s" %
+                                                  (label, evidence.jsonable(sorted(set(ref_copies) ^ set(copy_tags(r)))[:3])), rep))
+                        res["counters"]["runs_with_different_scan_result"] = res["counters"].get("runs_with_different_scan_result", 0) + 1
+                        continue
                     if r.rc != ref_rc:
                         res["violations"].append(("exit-status-depends-on-schedule:" + cmd, "%s: rc=%s, single-thread rc=%s" % (label, r.rc, ref_rc), rep))
                     if a.parity_bytes() != ref_par:
